@@ -1,6 +1,7 @@
 //! caosim - deterministic simulation with fault injection for cao-lang.
 mod checks;
 mod ctl;
+mod gen;
 mod kernel;
 
 use kernel::Tier;
